@@ -651,7 +651,10 @@ class QueryGarbageCollector(BaseGarbageCollector):
             WHERE 
                 (kind >= 20000 and kind < 30000)
             OR
-                (tags.name = 'expiration' AND tags.value < '%NOW%')
+                (tags.name = 'expiration' AND (
+                    length(tags.value) < length('%NOW%')
+                    OR (length(tags.value) = length('%NOW%') AND tags.value < '%NOW%')
+                ))
         )
     """
 
